@@ -67,6 +67,11 @@ func genImpTrailing(g *Gen) {
 	for i := 0; i < g.Scale(1, 3); i++ {
 		genImpTrailHistory(g, "between-batches")
 	}
+	// (after the others, own source again: their histories stay what they were)
+	g.Rng = rand.New(rand.NewSource(g.Seed*1000003 + 9973))
+	for i := 0; i < g.Scale(2, 12); i++ {
+		genImpTrailHistory(g, "in-suspend")
+	}
 	g.Rng = saved
 }
 
@@ -79,7 +84,11 @@ func genImpTrailHistory(g *Gen, kind string) {
 	own1 := append([]string{}, l.wallets...)
 	w := own1[r.Intn(len(own1))]
 	class := "pay-unused-trailing-address-" + kind
-	if kind != "between-batches" {
+	if kind == "in-suspend" {
+		// the block reaches the follower while the import worker waits in suspend() for it (seeded/C07-4: a tip
+		// height read before the hand-shake ends the rescan below this block and hands the wallet over without it)
+		class = "block-while-import-worker-waits-in-suspend"
+	} else if kind != "between-batches" {
 		class += "-rescan" // …-during-rescan, …-after-rescan
 	}
 	// ---- history before the import: random events, every notification delivered to both followers
@@ -120,6 +129,9 @@ func genImpTrailHistory(g *Gen, kind string) {
 	t.op("import-quiet-"+mode, "i2 importq %s %s %d", w, mode, len(l.addrs[w]))
 	t.op("i2-use-importing", "i2 use %s", w)
 	pay := trail[r.Intn(len(trail))]
+	if kind == "in-suspend" && r.Intn(2) == 0 {
+		pay = l.addrs[w][0] // an address that already has history
+	}
 	payBlock := func() { t.nodeEvent(func() { t.craftPay(class, pay) }) }
 	switch kind {
 	case "during":
@@ -133,6 +145,16 @@ func genImpTrailHistory(g *Gen, kind string) {
 			g.Stats["trailing-paid-block-after-hand-over"]++
 		}
 		t.op("impstep-silent", "i2 impsteps %s 1", w)
+	case "in-suspend":
+		// the follower of instance 2 has heard of everything but the paying block; that notification is handled while
+		// the worker of the (only, final) batch waits for the follower to pause
+		t.drain2()
+		payBlock()
+		b := t.q2[len(t.q2)-1]
+		t.q2 = t.q2[:len(t.q2)-1]
+		t.drain2()
+		t.op("impstepn", "i2 impstepn %s %s", w, b)
+		t.op("i2-use-done", "i2 use %s", w)
 	case "between-batches":
 		t.op("impstep-silent", "i2 impsteps %s 1", w) // cursor at 1000, not finished
 		t.op("i2-use-importing", "i2 use %s", w)
